@@ -730,3 +730,26 @@ Example ex_top_display :
   | _ => False
   end.
 Proof. vm_compute. reflexivity. Qed.
+
+(** * Outside the classes: the low-index-multiple rule still looks at the shape of tail tokens
+
+    [prog <files>... <dest>]: after the escape the look-ahead of the low-index-multiple rule
+    ([is_new_arg] / [possible_subcommand] on the NEXT token) is still evaluated, so a tail token that
+    looks like a flag ends the multi-valued positional early and the line is rejected, although the
+    same line with an innocuous token is accepted.  The implementation agrees
+    (corpus/C05/escape-main.r2.cases); the property's class (a TRAILING multi-valued positional) and
+    the classes of the theorems above exclude such commands. *)
+Definition l_files : arg := (arg_new [102]) <| a_num := Some {| vmin := 1; vmax := usize_max |} |> <| a_required := true |>.
+Definition l_dest : arg := (arg_new [100]) <| a_required := true |>.
+Definition l_c0 : cmd := (cmd_new [112]) <| c_args := [l_files; l_dest] |> <| c_bin_name := Some [112] |>.
+Definition w_b : bytes := [98].
+Definition w_c : bytes := [99].
+Theorem low_index_tail_shape_refuted : exists c0 tail alt,
+  plain c0 = true /\ valid c0 = true /\ length tail = length alt /\
+  (exists m, do_parse c0 (dashdash :: alt) = OOk m) /\
+  (exists e, do_parse c0 (dashdash :: tail) = OErr e /\ e_kind e = EUnknownArgument).
+Proof.
+  exists l_c0, [w_v; w_x; w_c], [w_v; w_b; w_c].
+  split; [vm_compute; reflexivity|]. split; [vm_compute; reflexivity|]. split; [reflexivity|].
+  split; [eexists; vm_compute; reflexivity|]. eexists. split; [vm_compute; reflexivity|reflexivity].
+Qed.
